@@ -30,7 +30,10 @@ ASSUMPTIONS = ['NumPy operator semantics (NEP 50 promotion) define "eager"']
 BINOPS = ['add', 'radd', 'sub', 'rsub', 'mul', 'rmul', 'truediv', 'rtruediv', 'floordiv',
           'rfloordiv', 'pow', 'rpow']
 UNOPS = ['pos', 'neg']
-SCALARS = [-3, -2, -1, 0, 1, 2, 3, 0.5, -2.5, 2.0, 1000, -1000]
+SCALARS = [-3, -2, -1, 0, 1, 2, 3, 0.5, -2.5, 2.0, 1000, -1000,
+           # NumPy scalars keep their own dtype in NumPy 2 promotion
+           {'np': 'float32', 'v': 0.5}, {'np': 'float64', 'v': 0.1}, {'np': 'int32', 'v': 3},
+           {'np': 'int16', 'v': -2}, {'np': 'uint8', 'v': 2}]
 
 PY = {
     'pos': lambda x, a: +x, 'neg': lambda x, a: -x,
@@ -60,12 +63,22 @@ def _case(draw, max_nodes, max_depth):
         if parent >= 1 and draw(st.integers(0, 3)) == 0:
             op = nodes[parent - 1][1]        # repeat the parent's operator (x + a + b, x * a * b)
         if op == 'cols':
-            arg = draw(S.col_selector(width[parent]).filter(lambda c: c is not None))
-            w = len(np.arange(width[parent])[S.to_cols(arg)])
+            if draw(st.integers(0, 4)) == 0:
+                mask = draw(st.lists(st.booleans(), min_size=width[parent], max_size=width[parent]))
+                if not any(mask):
+                    mask[0] = True
+                arg = {'t': 'mask', 'v': mask}       # boolean channel mask
+            else:
+                arg = draw(S.col_selector(width[parent]).filter(lambda c: c is not None))
+            w = len(np.arange(width[parent])[_cols(arg)])
         elif op in UNOPS:
             arg, w = None, width[parent]
         else:
             arg, w = draw(st.sampled_from(SCALARS)), width[parent]
+            if op.startswith('r') and isinstance(arg, dict):
+                # a NumPy scalar on the LEFT reaches the reflected method as a plain Python scalar
+                # (NumPy's own dispatch), so its dtype cannot take part; use its value only
+                arg = arg['v']
         nodes.append([parent, op, arg])
         depth.append(depth[parent] + 1)
         width.append(w)
@@ -101,10 +114,22 @@ def _same(what, out, exp, key):
         same_array(what, out, exp, key=key)
 
 
+def _scalar(arg):
+    if isinstance(arg, dict) and 'np' in arg:
+        return np.dtype(arg['np']).type(arg['v'])
+    return arg
+
+
+def _cols(arg):
+    if isinstance(arg, dict) and arg.get('t') == 'mask':
+        return np.array(arg['v'], dtype=bool)
+    return S.to_cols(arg)
+
+
 def _derive(obj, op, arg):
     if op == 'cols':
-        return obj[:, S.to_cols(arg)]
-    return PY[op](obj, arg)
+        return obj[:, _cols(arg)]
+    return PY[op](obj, _scalar(arg))
 
 
 def check(case):
@@ -181,4 +206,8 @@ def classify(case, info):
         nt = True
     if any(isinstance(a, float) for _, _, a in nodes):
         labels.append('float-scalar')
+    if any(isinstance(a, dict) and 'np' in a for _, _, a in nodes):
+        labels.append('numpy-scalar-operand')
+    if any(isinstance(a, dict) and a.get('t') == 'mask' for _, _, a in nodes):
+        labels.append('boolean-channel-mask')
     return sorted(set(labels)), nt
